@@ -123,6 +123,7 @@ type DFeed struct {
 	UseSrc bool     `json:"use_src,omitempty"`
 	Fail   int      `json:"fail"`
 	Render bool     `json:"render,omitempty"`
+	Rot    int      `json:"rot,omitempty"`
 }
 
 type DPResult struct {
